@@ -1,6 +1,227 @@
 #!/usr/bin/env python3
-"""runtime legs (race detector, heap, GC stress) — filled in later"""
+"""Runtime legs of C16 (race detector), C17 (live heap against history) and C18 (GC stress under
+checkptr).  These three properties are about the Go runtime; the Coq side carries only the static
+part (see DESIGN.md section 5), so what is measured here is reported at level "other"."""
+import json, os, time
+from vlib import *
+
+def _last_json(out):
+    for line in reversed(out.strip().split("\n")):
+        line = line.strip()
+        if line.startswith("{") and line.endswith("}"):
+            try:
+                return json.loads(line)
+            except Exception:
+                continue
+    return None
+
+def _tail(out, n=3000):
+    return out[-n:]
+
+def _diag(out):
+    """the lines of a Go runtime report that say what happened (a fatal error's goroutine dump hides them in the tail)"""
+    keys = ("fatal error:", "checkptr", "panic:", "WARNING: DATA RACE", "unexpected fault address", "SIGSEGV", "found bad pointer", "TIMEOUT after")
+    return [l.strip()[:300] for l in out.split("\n") if any(k in l for k in keys)][:6]
+
+RUNTIME_ASSUMPTIONS = [
+    "the Go runtime (scheduler, collector, allocator, sync.Pool) and the race detector / checkptr instrumentation are trusted as shipped with the toolchain",
+    "schedules, collector timings and heap numbers are explored / measured, not quantified over: this leg can refute, never prove",
+    "see DESIGN.md section 8 for the trusted base",
+]
+
+# ------------------------------------------------------------------ C16
+
 def run_race(ctx):
-    raise SystemExit("C16 runtime leg not implemented yet")
+    from vprops import finish, proof_leg, report_violation, corpus_replays
+    corpus_replays(ctx)
+    h = ctx.build.harness_race
+    G = 8
+    if ctx.tier == "quick":
+        plan = [(1, 160), (4, 160)]
+    else:
+        plan = [(p, 600) for p in (1, 2, 4, 16)] + [(p, 250) for p in (1, 2, 4, 16)]
+    runs = []
+    nontrivial, samples = set(), []
+    ops = mism = histories = readers = distinct = 0
+    if not os.path.exists(h):
+        report_violation(ctx, "crash", "the -race build of the harness is missing (go build -race failed)", {"harness": h}, "race-build")
+        plan = []
+    for i, (procs, nops) in enumerate(plan):
+        seed = ctx.seed * 1000 + i
+        cmd = [h, "race", str(seed), str(G), str(nops)]
+        envx = {"GOMAXPROCS": str(procs), "GORACE": "halt_on_error=1 exitcode=66"}
+        env = dict(os.environ)
+        env.update(envx)
+        t0 = time.time()
+        rc, out = sh(cmd, 900 if ctx.tier == "quick" else 3000, env=env)
+        js = _last_json(out) if rc in (0, 1) else None
+        run = {"gomaxprocs": procs, "seed": seed, "nops": nops, "rc": rc, "wall_s": round(time.time() - t0, 1)}
+        payload = {"command_line": " ".join(cmd), "env": envx, "exit_code": rc, "diagnostic_lines": _diag(out), "output_head": out[:3000], "output_tail": _tail(out, 1500)}
+        if rc == 66 or "DATA RACE" in out:
+            where = [l.strip() for l in out.split("\n") if l.strip().startswith(("github.com/Clement-Jean/go-art", "sync.(*Pool)")) or (REPO.rstrip("/") + "/") in l][:8]
+            payload["race_frames_in_library"] = where
+            report_violation(ctx, "oracle", "the race detector reports a data race (GOMAXPROCS=%d): %s" % (procs, "; ".join(where[:3])), payload, "race-p%d-%d" % (procs, i))
+        elif js is None:
+            report_violation(ctx, "crash", "harness race did not complete (exit %d)" % rc, payload, "race-crash-p%d-%d" % (procs, i))
+        elif rc != 0 or js.get("partA_mismatches", 0) or js.get("partB_mismatches", 0):
+            payload["report"] = {k: v for k, v in js.items() if k != "nontrivial_hashes"}
+            report_violation(ctx, "oracle", "a goroutine observed a result that differs from the sequential execution (GOMAXPROCS=%d): %s"
+                             % (procs, js.get("first_mismatch", "")[:400]), payload, "race-mismatch-p%d-%d" % (procs, i))
+        if js:
+            ops += js.get("partA_ops", 0) + js.get("partB_ops", 0)
+            mism += js.get("partA_mismatches", 0) + js.get("partB_mismatches", 0)
+            histories += js.get("partA_histories", 0)
+            readers += js.get("partB_readers", 0) * js.get("partB_trees", 0)
+            distinct += js.get("distinct_hashes", 0)
+            nontrivial |= set(js.get("nontrivial_hashes", []))
+            samples += js.get("samples", [])[1:4]
+            run.update({k: js.get(k) for k in ("partA_goroutines", "partA_histories", "partA_histories_with_wide_nodes", "partA_ops", "partA_mismatches",
+                                               "partB_trees", "partB_readers", "partB_ops", "partB_mismatches", "partB_tree_sizes", "yields", "panics")})
+            run["kinds_partA"] = len(js.get("partA_kinds", []))
+        runs.append(run)
+        if len(ctx.violations) >= 3:
+            break
+    proof = proof_leg(ctx)
+    cov = {
+        "evaluations": ops,
+        "distinct_nontrivial": len(nontrivial),
+        "rule": "each run: harness_race race <seed> 8 <nops> under GORACE=halt_on_error=1 with the listed GOMAXPROCS. Part A: 8 goroutines x 3 generated histories "
+                "(gen.history / gen.fanout, profile full, kinds cycling through all 22 instantiations) on private trees, released together from a barrier, "
+                "runtime.Gosched at a third of the commands, every output line compared with the property oracle. Part B: 9 shared trees (byte-string, unsigned, "
+                "signed, float, compound; 300-500 keys) each read by 8 goroutines running their own permutation of a read-only command list (S/MIN/MAX/SIZE/ALL/BWD/"
+                "TOPK/BOTK/RNG/PFX with early stops and re-iteration), compared with the sequential answers. evaluations = commands executed; distinct_nontrivial = "
+                "histories and reader lists that are distinct by the SHA-1 of their command text AND whose tree showed a node of class 16/48/256 in a dump.",
+        "samples": samples[:6] or [{"note": "no run completed"}],
+        "explanation": "Runtime leg of C16: exploration of schedules under the race detector (happens-before analysis of every access the executed schedules perform) "
+                       "plus comparison of every goroutine's results with a sequential reference. The static part (sole shared mutable package-level state is the "
+                       "sync.Pool array; query paths do not write) belongs to Properties/C16.v when present (see proof.*).",
+        "exhaustive": False,
+        "runs": runs,
+        "goroutine_histories": histories,
+        "reader_lists": readers,
+        "distinct_command_lists": distinct,
+        "mismatches": mism,
+        "gomaxprocs_settings": [p for p, _ in plan],
+    }
+    cov.update(ctx.stats)
+    return finish(ctx, cov, RUNTIME_ASSUMPTIONS, proof)
+
+# ------------------------------------------------------------------ C17
+
+HEAP_BYTES_PER_OP = 8.0          # a leak of one leaf per operation is >= 32 B/op
+HEAP_EMPTY_RETAINED = 64 * 1024
+
+def heap_excesses(js):
+    """which measured numbers exceed the thresholds: list of (kind, what, value, limit)"""
+    bad = []
+    for k in js.get("kinds", []):
+        for what in ("query_bytes_per_op", "overwrite_bytes_per_op", "churn_bytes_per_op"):
+            if k.get(what, 0) > HEAP_BYTES_PER_OP:
+                bad.append((k["kind"], what, k[what], HEAP_BYTES_PER_OP))
+        if k.get("empty_after_deletes_bytes", 0) > HEAP_EMPTY_RETAINED:
+            bad.append((k["kind"], "empty_after_deletes_bytes", k["empty_after_deletes_bytes"], HEAP_EMPTY_RETAINED))
+        if not k.get("size_ok", True):
+            bad.append((k["kind"], "size_ok", False, True))
+        ln = k.get("collation_buf_len_after_queries", -1)
+        lim = max(1024, 8 * k.get("longest_sort_key", 0))
+        if ln > lim:
+            bad.append((k["kind"], "collation_buf_len_after_queries", ln, lim))
+    return bad
+
 def run_heap(ctx):
-    raise SystemExit("C17 runtime leg not implemented yet")
+    from vprops import finish, proof_leg, report_violation, corpus_replays
+    corpus_replays(ctx)        # corpus/D9-* if present (none is committed: the defect is not visible in a command file's outputs)
+    N = 100000 if ctx.tier == "quick" else 5000000
+    runs, samples = [], []
+    ops = 0
+    kinds_ok = set()
+    seeds = [ctx.seed] if ctx.tier == "quick" else [ctx.seed, ctx.seed + 1]
+    for seed in seeds:
+        cmd = [ctx.build.harness, "heap", str(seed), str(N), "200"]
+        t0 = time.time()
+        rc, out = sh(cmd, 3000)
+        js = _last_json(out)
+        if rc != 0 or js is None:
+            report_violation(ctx, "crash", "harness heap did not complete (exit %d): %s" % (rc, "; ".join(_diag(out)[:2])),
+                             {"command_line": " ".join(cmd), "exit_code": rc, "diagnostic_lines": _diag(out), "output_head": out[:3000], "output_tail": _tail(out, 1500)},
+                             "heap-crash-%d" % seed)
+            continue
+        bad = heap_excesses(js)
+        for kind in sorted(set(b[0] for b in bad))[:4]:
+            mine = [b for b in bad if b[0] == kind]
+            report_violation(ctx, "oracle", "%s tree of %d keys, %d operations per phase: %s"
+                             % (kind, js["kinds"][0].get("keys", 0), N, "; ".join("%s = %s exceeds %s" % (w, v, l) for (_, w, v, l) in mine)),
+                             {"command_line": " ".join(cmd), "exceeded": [{"kind": kind, "number": w, "value": v, "limit": l} for (_, w, v, l) in mine],
+                              "measurement_line": json.dumps(js), "measurement": [k for k in js["kinds"] if k["kind"] == kind]},
+                             "heap-%s-%d" % ("".join(c if c.isalnum() else "_" for c in kind)[:30], seed))
+        for k in js["kinds"]:
+            ops += 3 * k["n"] + 2 * k["keys"]
+            if not [b for b in bad if b[0] == k["kind"]]:
+                kinds_ok.add((seed, k["kind"]))
+        runs.append({"seed": seed, "n": N, "wall_s": round(time.time() - t0, 1), "noise_bytes": js.get("noise_bytes"), "kinds": js["kinds"]})
+        samples += [{"kind": k["kind"], "keys": k["keys"], "operations_per_phase": k["n"], "tree_bytes": k["built_bytes"],
+                     "bytes_per_op": {"queries": k["query_bytes_per_op"], "overwrites": k["overwrite_bytes_per_op"], "churn": k["churn_bytes_per_op"]},
+                     "retained_after_deleting_everything": k["empty_after_deletes_bytes"],
+                     "collation_buffer_len": k["collation_buf_len_after_queries"]} for k in js["kinds"][:8]]
+    proof = proof_leg(ctx)
+    cov = {
+        "evaluations": ops,
+        "distinct_nontrivial": len(kinds_ok),
+        "rule": "harness heap <seed> N 200: per kind (alpha string/bytes, uint64, int32, float64, collation string:root and bytes:de, compound) a pool of 300 generated "
+                "keys of which 200 are stored; live heap = runtime.MemStats.HeapAlloc after two forced collections, taken before the tree exists, after the build, after N "
+                "queries (Search present/absent/partial, Minimum/Maximum, every 64th an iteration/TopK/BottomK/Range/Prefix), after N overwrites, after N delete+insert "
+                "rounds at constant size, and after deleting every key. Thresholds: %.0f B/op per phase, %d B retained when empty, collation buffer length <= max(1024, 8 x longest "
+                "sort key). evaluations = tree operations performed; distinct_nontrivial = (seed, kind) measurements within all thresholds, each covering 3N operations."
+                % (HEAP_BYTES_PER_OP, HEAP_EMPTY_RETAINED),
+        "samples": samples[:8] or [{"note": "no run completed"}],
+        "explanation": "Runtime leg of C17: the retained heap is measured against the length of the history at bounded content; a per-operation leak of one leaf (>= 32 B) "
+                       "or of one sort key (~40 B, defect D9) is 4x or more above the threshold while the numbers measured on a sound tree are below 0.1 B/op. "
+                       "The storage account on the model (inner nodes <= leaves - 1, one leaf and key array per stored key, collation buffer bounded) belongs to "
+                       "Properties/C17.v when present (see proof.*).",
+        "exhaustive": False,
+        "runs": runs,
+        "thresholds": {"bytes_per_op": HEAP_BYTES_PER_OP, "empty_retained_bytes": HEAP_EMPTY_RETAINED},
+    }
+    cov.update(ctx.stats)
+    return finish(ctx, cov, RUNTIME_ASSUMPTIONS, proof)
+
+# ------------------------------------------------------------------ C18 (added to the generic run by vspecial.extra_gc)
+
+def gcstress(ctx):
+    from vprops import report_violation
+    h = ctx.build.harness_checkptr
+    if not os.path.exists(h):
+        report_violation(ctx, "crash", "the checkptr build of the harness is missing (go build -gcflags=all=-d=checkptr failed)", {"harness": h}, "gcstress-build")
+        return {}
+    nkeys = 200 if ctx.tier == "quick" else 1500
+    seeds = [ctx.seed] if ctx.tier == "quick" else [ctx.seed, ctx.seed + 1, ctx.seed + 2]
+    res = {"gcstress_runs": []}
+    for seed in seeds:
+        cmd = [h, "gcstress", str(seed), str(nkeys)]
+        env = dict(os.environ)
+        env.update({"GOGC": "1"})
+        t0 = time.time()
+        rc, out = sh(cmd, 3000, env=env)
+        js = _last_json(out)
+        if rc != 0 or js is None:
+            diag = _diag(out)
+            fault = bool(diag)
+            what = ("runtime fault: " + "; ".join(diag[:2])) if fault else \
+                   ("stored key or value differs from the reference: " + js.get("first_mismatch", "") if js else "run did not complete (exit %d)" % rc)
+            report_violation(ctx, "oracle" if (js or fault) else "crash",
+                             "gcstress (GOGC=1, forced collections, -d=checkptr): %s" % what[:700],
+                             {"command_line": " ".join(cmd), "env": {"GOGC": "1"}, "exit_code": rc, "diagnostic_lines": diag, "output_head": out[:3000],
+                              "output_tail": _tail(out, 1500), "report": {k: v for k, v in (js or {}).items() if k != "samples"}}, "gcstress-%d" % seed)
+        if js:
+            r = {k: js.get(k) for k in ("trees", "ops", "equalities_checked", "forced_collections", "mismatches", "keys_per_kind")}
+            r.update({"seed": seed, "wall_s": round(time.time() - t0, 1)})
+            res["gcstress_runs"].append(r)
+            res["gcstress_trees"] = res.get("gcstress_trees", 0) + js.get("trees", 0)
+            res["gcstress_ops"] = res.get("gcstress_ops", 0) + js.get("ops", 0)
+            res["gcstress_equalities_checked"] = res.get("gcstress_equalities_checked", 0) + js.get("equalities_checked", 0)
+            res.setdefault("gcstress_samples", js.get("samples", [])[:4])
+    res["gcstress_rule"] = ("harness_checkptr gcstress <seed> <nkeys> with GOGC=1: value types *T, string, []byte, struct{}, [25]uint64 x key kinds alpha string, alpha []byte, "
+                            "uint64, int16, float64, collation string:de, compound; fill / delete a third / overwrite a third / re-insert with a forced collection every 5 "
+                            "operations and inside iterations, then Search of every key and All/Backward/Range(min,max)/Minimum/Maximum compared with an independently "
+                            "built reference map by reflect.DeepEqual")
+    return res
